@@ -164,8 +164,9 @@ impl<'a> Lexer<'a> {
 
     fn advance(&mut self) -> Option<char> {
         let c = self.chars.next();
-        if c.is_some() {
-            self.position += 1;
+        if let Some(ch) = c {
+            // `position` is a byte offset into `source` (it is used to slice it)
+            self.position += ch.len_utf8();
         }
         c
     }
